@@ -535,6 +535,81 @@ func runC02(c *core.Ctx) {
 	c.Section("lists", c.N(100000, 4000000), func(cs *core.Case) {
 		c02List(cs, gen.List(cs.R, 12, o))
 	})
+	// lists longer than the library's own cap of 253 NACK pairs / SLI entries (outside D: the
+	// unchanged library refuses to marshal them, and then nothing is judged). A library that does
+	// marshal such a list has to do it right: the octets are the RFC encoding, the length field
+	// can represent the size, and both decoders give the value back.
+	capSizes := []int{254, 255, 256, 257, 1000, 8190, 16380, 16381, 16382, 16383, 16384, 20000}
+	c.Section("beyond-library-caps", uint64(2*len(capSizes))*c.N(1, 6), func(cs *core.Case) {
+		r := cs.R
+		n := capSizes[int(cs.Idx/2)%len(capSizes)]
+		sender, media := r.U32(), r.U32()
+		var p rtcp.Packet
+		want := []byte{0x81, 205, 0, 0, byte(sender >> 24), byte(sender >> 16), byte(sender >> 8), byte(sender), byte(media >> 24), byte(media >> 16), byte(media >> 8), byte(media)}
+		if cs.Idx%2 == 0 {
+			v := &rtcp.TransportLayerNack{SenderSSRC: sender, MediaSSRC: media}
+			for i := 0; i < n; i++ {
+				np := rtcp.NackPair{PacketID: r.U16(), LostPackets: rtcp.PacketBitmap(r.U16())}
+				v.Nacks = append(v.Nacks, np)
+				want = append(want, byte(np.PacketID>>8), byte(np.PacketID), byte(np.LostPackets>>8), byte(np.LostPackets))
+			}
+			p = v
+		} else {
+			v := &rtcp.SliceLossIndication{SenderSSRC: sender, MediaSSRC: media}
+			want[0] = 0x82
+			if !ref.LibSLI205 {
+				want[1] = 206
+			}
+			for i := 0; i < n; i++ {
+				e := rtcp.SLIEntry{First: r.U16() & 0x1FFF, Number: r.U16() & 0x1FFF, Picture: r.U8() & 0x3F}
+				v.SLI = append(v.SLI, e)
+				w := uint32(e.First)<<19 | uint32(e.Number)<<6 | uint32(e.Picture)
+				want = append(want, byte(w>>24), byte(w>>16), byte(w>>8), byte(w))
+			}
+			p = v
+		}
+		k := gen.KindOf(p)
+		b, err, pan := gMarshal(p)
+		cs.Eval(1)
+		cs.DistinctN(1)
+		det := func(extra core.W) core.W {
+			d := core.W{"type": k.String(), "entries": n, "marshal_len": len(b), "marshal_head_hex": mon.Hex(b, 32)}
+			for kk, vv := range extra {
+				d[kk] = vv
+			}
+			return d
+		}
+		if pan != "" {
+			cs.Fail("panic/Marshal", det(core.W{"panic": pan}))
+			return
+		}
+		if err != nil {
+			cs.Count("beyond-library-caps/refused")
+			return
+		}
+		cs.Count("beyond-library-caps/accepted")
+		words := len(want)/4 - 1
+		if words > 0xFFFF {
+			cs.Fail("beyond-caps/accepted-unrepresentable/"+k.String(), det(core.W{"note": "the size does not fit the 16-bit length field"}))
+			return
+		}
+		want[2], want[3] = byte(words>>8), byte(words)
+		if !bytes.Equal(b, want) {
+			cs.Fail("beyond-caps/octets/"+k.String(), det(core.W{"reference_head_hex": mon.Hex(want, 32), "reference_len": len(want)}))
+			return
+		}
+		own, oerr, opan := gUnmarshalOwn(k, cloneBytes(b))
+		ps, uerr, upan := gUnmarshal(cloneBytes(b))
+		cs.Eval(2)
+		if opan != "" || upan != "" {
+			cs.Fail("panic/Unmarshal", det(core.W{"panic": opan + upan}))
+			return
+		}
+		okDg := uerr == nil && len(ps) == 1 && (mon.SemEqual(ps[0], p) || k == gen.SLI) // the datagram path of SLI is known finding KF1
+		cs.Check(oerr == nil && mon.SemEqual(own, p) && okDg, "beyond-caps/round-trip/"+k.String(), func() core.W {
+			return det(core.W{"own_error": errStr(oerr), "datagram_error": errStr(uerr)})
+		})
+	})
 	// fixed regression witnesses of repaired defects
 	c.Once("regression", func(cs *core.Case) {
 		for n := 0; n <= 9; n++ {
